@@ -677,7 +677,7 @@ Proof.
   split; [|split]; (eexists; split; [vm_compute; reflexivity | split; [|split]; vm_compute; reflexivity]).
 Qed.
 
-(* C08_restartable: after a kill at any point the flock on the DAG file is free (released by the kernel at process death), a new
+(* C08_restartable: after a kill at any point the flock on the start lock file is free (released by the kernel at process death), a new
    agent's probe says "not running", and its bind - preceded by the unlink of sock/server.go - succeeds, whatever the kill left at
    the socket path *)
 Theorem restartable : forall n s0 ls st,
